@@ -106,6 +106,22 @@ def layouts(quick, rng):
                     f"    (lambda e: e  # lambda z: z.q, (\n        .jets)\n)",
                     [("SelectMany", "lambda e: e.a"), ("Select", f"lambda e: (e.a, e.b + {i})"),
                      ("Select", "lambda e: e.jets")], False, "name-then-newline:comments"))
+        # comment-only and blank physical lines between the bracket and the lambda (token rows and
+        # physical lines must stay in step: seed C03_e), alone and with an equal-looking call on
+        # the following line
+        out.append((f"ds.Select(\n    # note (lambda q: q,\n    lambda e: e.a + {i}\n)",
+                    [("Select", f"lambda e: e.a + {i}")], True, "comment-only-line"))
+        out.append((f"ds.Select(\n\n    lambda e: e.a + {i}\n)",
+                    [("Select", f"lambda e: e.a + {i}")], True, "blank-line"))
+        out.append((f"(ds.Select(\n    # note\n    lambda e: e.a + {i})\n    .Select(lambda e: e.b + {i}))",
+                    [("Select", f"lambda e: e.a + {i}"), ("Select", f"lambda e: e.b + {i}")], False,
+                    "comment-only-line:same-args-next-line"))
+        out.append((f"(ds.Select(\n\n    lambda e: e.a + {i})\n    .Select(lambda e: e.b + {i}))",
+                    [("Select", f"lambda e: e.a + {i}"), ("Select", f"lambda e: e.b + {i}")], False,
+                    "blank-line:same-args-next-line"))
+        out.append((f"(ds.Where(\n    # c1\n\n    # c2\n    lambda e: e.a > {i})\n    .Where(lambda e: e.b > {i})\n    .Where(lambda e: e.c > {i}))",
+                    [("Where", f"lambda e: e.a > {i}"), ("Where", f"lambda e: e.b > {i}"),
+                     ("Where", f"lambda e: e.c > {i}")], False, "comment+blank-lines:same-args-next-lines"))
         out.append((f"(ds.Where(lambda e: e.pt > {i}).Where\n(lambda e: e.pt > 5)\n)",
                     [("Where", f"lambda e: e.pt > {i}"), ("Where", "lambda e: e.pt > 5")], False,
                     "name-then-newline:where"))
@@ -143,7 +159,9 @@ def random_layouts(rng, n):
             if 0 < i and pieces and rng.random() < p_break and tk.string != ")" or \
                     (pieces and tk.string == "." and rng.random() < 0.5):
                 cm = rng.choice(["", "", "  # lambda z: z.q, (", "  # ) ]"])
-                gap = cm + "\n" + " " * rng.choice([0, 2, 4, 8])
+                # now and then whole physical lines that carry no code token
+                extra = rng.choice(["", "", "", "\n", "\n    # only a comment", "\n\n  # lambda q: (q"])
+                gap = cm + extra + "\n" + " " * rng.choice([0, 2, 4, 8])
             pieces.append(gap + tk.string)
             prev_end = tk.end[1]
         code = "".join(pieces)
@@ -254,6 +272,41 @@ def run(t):
                         "a DIFFERENT lambda was silently recorded", key,
                         [s for _, s in intended], [ast.unparse(l) for _, l in got], rp)
     t.bounds.append(f"{len(index)} placements ({len(lays)} layouts x contexts)")
+
+
+def readline_contract(t):
+    """The sidecar contract of _line_string_reader.readline on the real class: the k-th call
+    returns the k-th stored line from the start line on, then '' for ever (bounded stand-in for
+    the engine-P obligations, which need the function to stay inside the engine's subset)."""
+    from func_adl.util_ast import _line_string_reader
+    pool = ["x = 1\n", "\n", "    # comment (lambda\n", "  \n", "ds.Select(\n", "#\n", "    lambda e: e.a)\n"]
+    n = 0
+    for size in range(0, 5):
+        for lines in itertools.product(pool, repeat=size):
+            if size == 4 and n % 7:
+                n += 1
+                continue
+            n += 1
+            lines = list(lines)
+            for start in range(0, size + 1):
+                key = f"C03:readline:{lines!r}@{start}"
+                t.case(key, any(not ln.strip() or ln.strip().startswith("#") for ln in lines[start:]))
+                t.contract("_line_string_reader.readline: k-th call == k-th stored line, then ''")
+                r = _line_string_reader(lines, start)
+                got = [r.readline() for _ in range(size - start + 2)]
+                want = lines[start:] + ["", ""]
+                if got != want:
+                    t.violation("readline:ensures result == nth(lines, current) and current advances by one",
+                                "the reader's rows are not the physical lines", key, want, got,
+                                {"kind": "C03", "key": key})
+
+
+_run_layouts = run
+
+
+def run(t):
+    _run_layouts(t)
+    readline_contract(t)
 
 
 def replay(payload, t):
